@@ -248,6 +248,14 @@ def main():
                 for n in (rdata.get("notes") or []):
                     if len(merged["notes"]) < 40:
                         merged["notes"].append(n)
+            if part.get("race") and status != "timeout" and rc != 0 and rdata is not None and rdata.get("done"):
+                # `go test -race` exits 1 ("race detected during execution of test") although the harness
+                # completed; the races themselves are taken from the race log below, not from the exit code
+                try:
+                    if "race detected during execution of test" in open(logp, errors="replace").read():
+                        rc = 0
+                except OSError:
+                    pass
             if status == "timeout" or rc != 0 or rdata is None or not rdata.get("done"):
                 # child crashed, hung or failed: the harness never crashes or hangs on a
                 # tree where the property holds, so this is reported as a violation with
